@@ -39,7 +39,7 @@ func isFatal(name string) bool {
 var pureStd = map[string]bool{
 	"path/filepath.Base": true, "path/filepath.Dir": true, "path/filepath.Ext": true, "path/filepath.Clean": true,
 	"path/filepath.IsAbs": true, "path/filepath.Join": true, "path.Base": true, "path.Dir": true, "path.Join": true, "path.Ext": true,
-	"path/filepath.ToSlash": true, "path.Clean": true,
+	"path/filepath.ToSlash": true, "path.Clean": true, "path/filepath.Abs": true, "path/filepath.Rel": true,
 	"strings.TrimSpace": true, "strings.ToLower": true, "strings.ToUpper": true, "strings.Join": true, "strings.Split": true,
 	"strings.TrimLeft": true, "strings.TrimRight": true, "strings.Trim": true, "strings.Fields": true, "strings.Repeat": true,
 	"strings.Count": true, "strings.EqualFold": true, "strings.ContainsAny": true, "strings.ContainsRune": true, "strings.IndexRune": true,
